@@ -796,3 +796,88 @@ Example sub_extent_error_nonvacuous :
   bbox_position_in_image (586400, 196400, 752800, 362800) 256 256 (586400, 196400, 752800, 350000) =
     ((256, 237)%Z, (0, 19)%Z, (586400, 196400, 752800, 350000)).
 Proof. vm_compute. reflexivity. Qed.
+
+(* ================================================================== the single-tile chain: level selection *)
+Local Open Scope Z_scope.
+
+(* a request with the resolution of level l selects level l (stretch factor >= 1, strictly decreasing resolutions) *)
+Lemma single_tile_level g l :
+  wf g -> decreasing_res g -> valid_level g l = true -> 0 < sf_d g <= sf_n g ->
+  closest_level g (res_at g l * tw g) (tw g) = l.
+Proof.
+  intros Hwf Hdec Hv Hsf. pose proof (res_at_pos g l Hwf Hv) as Hr.
+  pose proof Hwf as (_ & _ & Htw & _ & _).
+  assert (Hl : 0 <= l < levels g) by (unfold valid_level in Hv; lia).
+  apply (closest_level_spec_unique g (res_at g l * tw g) (tw g)).
+  - apply closest_level_spec; try assumption; nia.
+  - unfold closest_level_spec_of. split; [exact Hl|]. left. split.
+    + unfold level_within. split; [lia|]. nia.
+    + intros j Hj [Hw _]. pose proof (Hdec l j ltac:(lia) ltac:(lia) ltac:(lia)) as Hlt. nia.
+Qed.
+
+(* a tile of the grid meets the grid bbox *)
+Lemma valid_tile_intersects g x y l :
+  wf g -> valid_level g l = true -> limit_tile g x y l = Some (x, y, l) ->
+  bbox_intersects (gx0 g, gy0 g, gx1 g, gy1 g) (tile_bbox g x y l) = true.
+Proof.
+  intros Hwf Hv Hlim. pose proof (res_at_pos g l Hwf Hv) as Hr.
+  pose proof (grid_size_cover g l Hwf Hv) as Hc.
+  pose proof Hwf as (Hx & Hy & Htw & Hth & _).
+  unfold limit_tile in Hlim. rewrite Hv in Hlim. cbn [negb] in Hlim.
+  destruct (grid_size g l) as [nx ny]. cbv zeta in Hc.
+  destruct ((x <? 0) || (y <? 0) || (nx <=? x) || (ny <=? y)) eqn:E; [discriminate|].
+  assert (Hxy : 0 <= x < nx /\ 0 <= y < ny) by lia.
+  destruct Hc as (_ & _ & _ & Hcx & _ & Hcy).
+  set (r := res_at g l) in *.
+  assert (Hsx : 0 < r * tw g) by nia. assert (Hsy : 0 < r * th g) by nia.
+  assert (Hx1 : x * r * tw g <= (nx - 1) * (r * tw g)) by nia.
+  assert (Hy1 : y * r * th g <= (ny - 1) * (r * th g)) by nia.
+  assert (Hx0 : 0 <= x * r * tw g) by nia. assert (Hy0 : 0 <= y * r * th g) by nia.
+  unfold bbox_intersects, tile_bbox. fold r. destruct (ul g); lia.
+Qed.
+
+(* The whole chain for a WMS request that is exactly one tile of the cache: CacheMapLayer._image selects the level
+   of the tile, the affected tiles are that tile alone and src_bbox is the request rectangle (so that
+   ImageTransformer.transform returns the stored image untouched: single_tile_unresampled). *)
+Lemma single_tile_plan g x y l :
+  wf g -> decreasing_res g -> valid_level g l = true -> 10 <= res_at g l ->
+  0 < sf_d g <= sf_n g -> 0 < shr_d g <= shr_n g ->
+  limit_tile g x y l = Some (x, y, l) ->
+  cache_map_plan g (tile_bbox g x y l) (tw g) (th g) = Mosaic l (tile_bbox g x y l) 1 1 [Some (x, y, l)].
+Proof.
+  intros Hwf Hdec Hv Hr10 Hsf Hshr Hlim. pose proof (res_at_pos g l Hwf Hv) as Hr.
+  pose proof Hwf as (_ & _ & Htw & Hth & _).
+  assert (Hl : 0 <= l < levels g) by (unfold valid_level in Hv; lia).
+  unfold cache_map_plan, affected_level.
+  rewrite (valid_tile_intersects g x y l Hwf Hv Hlim). cbn [negb].
+  pose proof (tile_bbox_size g x y l) as Hsz.
+  assert (Hres : get_resolution (tile_bbox g x y l) (tw g) (th g) = (res_at g l * tw g, tw g)).
+  { destruct (tile_bbox g x y l) as [[[x0 y0] x1] y1]. destruct Hsz as [Hw Hh]. unfold get_resolution.
+    replace (Z.abs (x0 - x1)) with (res_at g l * tw g) by nia.
+    replace (Z.abs (y0 - y1)) with (res_at g l * th g) by nia.
+    replace (res_at g l * tw g * th g <=? res_at g l * th g * tw g) with true by (symmetry; apply Z.leb_le; nia).
+    reflexivity. }
+  rewrite Hres. rewrite (single_tile_level g l Hwf Hdec Hv Hsf).
+  assert (Hr0 : res_at g l <= res_at g 0).
+  { destruct (Z.eq_dec l 0) as [->|Hne]; [lia|]. pose proof (Hdec 0 l ltac:(lia) ltac:(lia) ltac:(lia)). lia. }
+  replace (res_at g 0 * shr_n g * tw g <? res_at g l * tw g * shr_d g) with false by (symmetry; apply Z.ltb_ge; nia).
+  rewrite (single_tile_affected g x y l Hwf Hv Hr10).
+  unfold limit_tile in Hlim. rewrite Hv in Hlim. cbn [negb] in Hlim.
+  destruct (grid_size g l) as [nx ny]. cbn [fst snd]. unfold tile_or_none.
+  destruct ((x <? 0) || (y <? 0) || (nx <=? x) || (ny <=? y)); [discriminate|]. reflexivity.
+Qed.
+
+Example single_tile_plan_nonvacuous :
+  let g := mkGrid (-1000) (-500) 1560 780 64 64 [40; 20; 10] true 23 20 4 1 in
+  wf g /\ decreasing_res g /\ limit_tile g 1 1 2 = Some (1, 1, 2) /\
+  cache_map_plan g (tile_bbox g 1 1 2) 64 64 = Mosaic 2 (-360, -500, 280, 140) 1 1 [Some (1, 1, 2)].
+Proof.
+  cbv zeta. split.
+  { unfold wf, pos_res. cbn [gx0 gx1 gy0 gy1 tw th ress].
+    split; [lia|]. split; [lia|]. split; [lia|]. split; [lia|]. intros r [<-|[<-|[<-|[]]]]; lia. }
+  split.
+  { unfold decreasing_res, levels, res_at. cbn [ress length]. intros i j Hi Hij Hj.
+    assert (Hc : (i = 0 /\ j = 1) \/ (i = 0 /\ j = 2) \/ (i = 1 /\ j = 2)) by lia.
+    destruct Hc as [[-> ->]|[[-> ->]|[-> ->]]]; cbn; lia. }
+  split; vm_compute; reflexivity.
+Qed.
